@@ -141,8 +141,8 @@ def span(ranges, inverted):
 
 # --------------------------------------------------------------------------------------------
 
-def impl_map_all(ranges, inverted, lo, n):
-    m = StepMap(list(ranges), inverted)
+def impl_map_all(ranges, inverted, lo, n, obj=None):
+    m = StepMap(list(ranges), inverted) if obj is None else obj
     out = []
     for assoc in (-1, 1):
         row = []
@@ -157,9 +157,9 @@ def impl_map_all(ranges, inverted, lo, n):
     return out
 
 
-def impl_for_each(ranges, inverted):
+def impl_for_each(ranges, inverted, obj=None):
     acc = []
-    StepMap(list(ranges), inverted).for_each(lambda a, b, c, d: acc.append([a, b, c, d]))
+    (StepMap(list(ranges), inverted) if obj is None else obj).for_each(lambda a, b, c, d: acc.append([a, b, c, d]))
     return acc
 
 
@@ -712,6 +712,178 @@ def check_algebra(ctx, rng, reqs, metas, n_cases):
                                                  "left": obs[0], "right": obs[1]}))
 
 
+# --------------------------------------------------------------------------------------------
+# live objects: the same StepMap object queried again and again (map / map_result, recover, touches, for_each), inverted after
+# it was queried, its inverse queried and inverted again, the object and its inverses registered as mirror pairs of several
+# mappings (as the first and as the later member, whose `recover` the mapping calls) — every answer against the reference
+# rule computed from the object's description (ranges, orientation), and against the model.  A map is a value: what it
+# answers may not depend on what it, or the map it was derived from, was asked before.
+
+def _want_recover(q, k, assoc):
+    inside = [i for i, (os_, oe, _, _) in enumerate(q) if os_ <= k <= oe][:1]
+    if not inside:
+        return None
+    os_, oe, _, _ = q[inside[0]]
+    return None if k == (os_ if assoc < 0 else oe) else [inside[0], k - os_]
+
+
+LIVE_USES = ["map", "map", "recover", "recover", "touches", "for_each", "invert", "invert", "mirror-first", "mirror-later", "chain"]
+
+
+def live_use(ctx, rng, pool, e, use, reqs, metas):
+    """one use of the live object of pool entry `e`; returns the entry of a derived object, if one was made"""
+    m, ranges, inverted = e.obj, e.meta["ranges"], e.meta["inverted"]
+    q = quads(ranges, inverted)
+    n = span(ranges, inverted) + 1
+
+    def replay(**kw):
+        return dict({"ranges": ranges, "inverted": inverted, "object_history": list(e.log), "use": use}, **kw)
+    ctx.count("live:" + use)
+    if e.uses:
+        ctx.count("live_uses_of_an_object_used_before")
+    ctx.case(["live", ranges, inverted, list(e.log), use], nontrivial=len(ranges) > 0)
+    derived = None
+    if use == "map":
+        st, val = outcome(lambda: impl_map_all(ranges, inverted, 0, n, obj=m))
+        if st != "ok":
+            ctx.violation("map-raises", f"StepMap.map_result raised {val}", replay())
+        else:
+            bad = False
+            for ai, assoc in enumerate((-1, 1)):
+                for k in range(n):
+                    pos, dinfo, rec, simple = val[ai][k]
+                    exp = ref_map(ranges, inverted, k, assoc)
+                    got = (pos, bool(dinfo & 8), bool(dinfo & 5), bool(dinfo & 6), bool(dinfo & 4))
+                    ctx.count("live_map_calls")
+                    if simple != pos or got != exp:
+                        ctx.violation("map-rule", "map/map_result disagree with the documented rule",
+                                      replay(pos=k, assoc=assoc, got=[simple, *got], expected=list(exp)))
+                        bad = True
+                    elif rec != _want_recover(q, k, assoc):
+                        ctx.violation("map-recover", "recover value inconsistent with the rule",
+                                      replay(pos=k, assoc=assoc, got=rec, expected=_want_recover(q, k, assoc)))
+                        bad = True
+                    if bad:
+                        break
+                if bad:
+                    break
+            reqs.append({"op": "mapAll", "m": [ranges, inverted], "lo": 0, "n": n})
+            metas.append(("mapAll", ranges, inverted, [[[p, d, r] for (p, d, r, _) in row] for row in val]))
+    elif use == "recover":
+        # recover(value) of a map: the start of the range in the map's own new coordinates plus the offset
+        for i, (os_, oe, ns, ne) in enumerate(q):
+            for off in range(0, (ne - ns) + 1):
+                st, r = outcome(lambda: m.recover(i + off * 65536))
+                ctx.count("live_recover_calls")
+                if st != "ok" or r != ns + off:
+                    ctx.violation("recover", "recover(value) does not return the position `offset` tokens into the range's new side",
+                                  replay(index=i, offset=off, got=r if st == "ok" else str(r), expected=ns + off))
+                    break
+                reqs.append({"op": "recover", "m": [ranges, inverted], "rv": [i, off]})
+                metas.append(("recover", ranges, inverted, r))
+    elif use == "touches":
+        for i, (os_, oe, ns, ne) in enumerate(q):
+            for k in range(n):
+                st, t = outcome(lambda: m.touches(k, i))
+                if st != "ok" or bool(t) != (os_ <= k <= oe):
+                    ctx.violation("touches", "touches() disagrees with range containment",
+                                  replay(pos=k, index=i, got=bool(t) if st == "ok" else str(t), expected=os_ <= k <= oe))
+                    break
+    elif use == "for_each":
+        st, fe = outcome(lambda: impl_for_each(ranges, inverted, obj=m))
+        if st != "ok" or fe != [list(x) for x in q]:
+            ctx.violation("for_each-coords", "for_each reports ranges inconsistent with the map's coordinates",
+                          replay(got=fe if st == "ok" else str(fe), expected=[list(x) for x in q]))
+        else:
+            reqs.append({"op": "forEach", "m": [ranges, inverted]})
+            metas.append(("forEach", ranges, inverted, fe))
+    elif use == "invert":
+        st, y = outcome(m.invert)
+        if st != "ok" or list(y.ranges) != list(ranges) or bool(y.inverted) != (not inverted):
+            ctx.violation("invert", "StepMap.invert is not the same ranges read in the other direction", replay(outcome=st))
+        else:
+            derived = pool.add(y, log=e.log + ["invert"], ranges=ranges, inverted=not inverted)
+    else:
+        # mirror pairs made of live objects.  members: (entry, description); the inverse of a member is either a pooled
+        # object of the opposite orientation or made now from the (already used) object
+        def inverse_of(x):
+            other = pool.draw(lambda o: o is not x and o.meta["ranges"] == x.meta["ranges"] and o.meta["inverted"] != x.meta["inverted"])
+            if other is not None and rng.random() < 0.5:
+                ctx.count("live_mirror_partner:pooled")
+                return other
+            ctx.count("live_mirror_partner:inverted-now")
+            return pool.add(x.obj.invert(), log=x.log + ["invert"], ranges=x.meta["ranges"], inverted=not x.meta["inverted"])
+        if use == "chain":
+            firsts = [e] + [pool.draw() for _ in range(rng.randint(1, 2))]
+        else:
+            firsts = [e]
+        if use == "mirror-later":
+            firsts = [inverse_of(e)]
+            seconds = [e]
+        else:
+            seconds = [inverse_of(x) for x in firsts]
+        members = firsts + list(reversed(seconds))
+        kk = len(firsts)
+
+        def build():
+            mp = Mapping()
+            stages = []
+            for idx, x in enumerate(members):
+                if idx < kk:
+                    mp.append_map(x.obj)
+                else:
+                    mp.append_map(x.obj, 2 * kk - 1 - idx)
+                stages.append(None)
+            return mp
+        st, mp = outcome(build)
+        for x in members:
+            x.used(use + ("#%d" % members.index(x)))
+        law = all(strict_wf(x.meta["ranges"]) for x in firsts)
+        if st != "ok":
+            ctx.violation("mirror-roundtrip", f"building a mapping of a map and its inverse as mirrors raised {mp}",
+                          replay(chain=[[x.meta["ranges"], x.meta["inverted"]] for x in members]))
+        else:
+            f0 = members[0]
+            hi = span(f0.meta["ranges"], f0.meta["inverted"]) + 1
+            mj = [[list(x.meta["ranges"]), x.meta["inverted"]] for x in members]
+            mir = list(mp.mirror or [])
+            bad = False
+            for assoc in (-1, 1):
+                for pos in range(hi):
+                    stg, got = outcome(lambda: mp.map(pos, assoc))
+                    ctx.count("live_mirror_calls")
+                    if stg != "ok" or (law and got != pos):
+                        if not bad:
+                            ctx.violation("mirror-roundtrip", "mapping forward and back through mirrored maps does not return the position",
+                                          replay(chain=mj, mirror=mir, pos=pos, assoc=assoc, got=got if stg == "ok" else str(got),
+                                                 histories=[list(x.log) for x in members]))
+                        bad = True
+                        continue
+                    str_, r = outcome(lambda: mp.map_result(pos, assoc))
+                    if str_ == "ok":
+                        reqs.append({"op": "mappingMap", "mapping": {"maps": mj, "mirror": mir}, "pos": pos, "assoc": assoc})
+                        metas.append(("mappingMap", mj, None, [got, r.pos, r.del_info]))
+    e.used(use)
+    return derived
+
+
+def check_live(ctx, rng, reqs, metas, n_cases):
+    from ..reuse import Pool
+    pool = Pool(rng, cap=10)
+
+    def fresh():
+        r = random_map(rng, 4, strict=rng.random() < 0.75)
+        inv = rng.random() < 0.35
+        return pool.add(StepMap(list(r), inv), ranges=r, inverted=inv)
+    for _ in range(n_cases):
+        e = fresh() if (len(pool) < 3 or rng.random() < 0.25) else pool.draw()
+        ctx.count("live_cases")
+        for _u in range(rng.randint(1, 4)):
+            d = live_use(ctx, rng, pool, e, rng.choice(LIVE_USES), reqs, metas)
+            if d is not None and rng.random() < 0.6:
+                e = d       # go on with the derived object
+
+
 def run(ctx):
     core.lean_phase(ctx)
     rng = ctx.rng
@@ -731,6 +903,7 @@ def run(ctx):
         check_map(ctx, random_map(rng), rng.random() < 0.5, reqs, metas)
     check_mappings(ctx, rng, reqs, metas, ctx.budget(150, 3000))
     check_algebra(ctx, rng, reqs, metas, ctx.budget(150, 3000))
+    check_live(ctx, rng, reqs, metas, ctx.budget(120, 2500))
     # correspondence
     if reqs:
         outs = ctx.driver.run(reqs)
